@@ -459,7 +459,7 @@ struct UnitSpec
   int n;
   std::vector<int> pre; // 0 free, 1 true, -1 false per var
   bool prop;
-  int mode; // 0 singles+pairs (n<=3), 1 singles only, 2 distinct-variable lists (product encoding)
+  int mode; // 0 singles+pairs (n<=3), 1 singles only, 2 distinct-variable lists (product encoding), 3 large grids (identity and reverse order, all signs)
   int L;
   bool mid_units;
 };
@@ -487,6 +487,30 @@ static void run_unit(uint64_t ui)
     if ((cases & 0xffff) == 1)
       vf::sample(txt);
   };
+  if (U.mode == 3)
+  { // grids of the product encoding with incomplete last rows/columns: L distinct variables in ascending and in
+    // descending order, every sign pattern, at-most-one and exactly-one
+    for (int rev = 0; rev < 2; ++rev)
+      for (int signs = 0; signs < (1 << U.L); ++signs)
+      {
+        std::vector<int> l;
+        for (int i = 0; i < U.L; ++i)
+        {
+          int v = rev ? U.L - i : i + 1;
+          l.push_back(((signs >> i) & 1) ? -v : v);
+        }
+        for (char op : {'a', 'x'})
+        {
+          Case c = base;
+          c.steps.push_back(Step{op, l});
+          go(c);
+        }
+      }
+    vf::count("histories", cases);
+    vf::count("truth_tables", g_tables);
+    g_tables = 0;
+    return;
+  }
   if (U.mode == 2)
   { // all orderings/signs of L distinct variables, every op
     std::vector<int> vars;
@@ -611,6 +635,8 @@ int main(int argc, char **argv)
     add_specs(3, true, 1, 3, false, 3);
     add_specs(3, false, 1, 3, false, 3);
     add_specs(4, false, 2, 4, false, 1);
+    for (int L = 5; L <= 8; ++L)
+      add_specs(L, false, 3, L, false, 0);
   }
   else
   {
@@ -623,6 +649,9 @@ int main(int argc, char **argv)
     add_specs(4, false, 2, 4, false, 2);
     add_specs(5, false, 2, 5, false, 1);
     add_specs(6, false, 2, 6, false, 0);
+    for (int L = 5; L <= 9; ++L)
+      add_specs(L, L % 2 == 0, 3, L, false, 1);
+    add_specs(10, false, 3, 10, false, 0);
   }
   vf::Options opt;
   opt.jobs = (int)args.num("jobs", 16);
